@@ -481,6 +481,20 @@ func main() {
 	// ones doing the work (parts run one after the other, so the variables are constant during the part)
 	hook := &countingJSON{}
 	geojson.CustomJSONMarshaler, geojson.CustomJSONUnmarshaler = hook, hook
+	// zero values: geometries whose coordinates are all zero (the Go zero value of the point and bound types)
+	// are geometries like any other, not "absent"
+	nz := math.Copysign(0, -1)
+	zeros := []orb.Geometry{
+		orb.Point{}, orb.Point{nz, nz}, orb.Point{0, nz},
+		orb.MultiPoint{{}}, orb.MultiPoint{{}, {}}, orb.LineString{{}, {}}, orb.Ring{{}, {}, {}, {}}, orb.Polygon{{{}, {}, {}, {}}}, orb.MultiLineString{{{}, {}}}, orb.MultiPolygon{{{{}, {}, {}, {}}}},
+		orb.Collection{orb.Point{}}, orb.Collection{orb.Point{1, 2}, orb.Point{}, orb.LineString{{}, {}}}, orb.Collection{orb.Collection{orb.Point{}}, orb.Point{3, 4}},
+		orb.Bound{}, orb.Collection{orb.Bound{}},
+	}
+	r.Explore("zero-values", fmt.Sprintf("%d geometries whose coordinates are all zero (points, bounds, lines, rings, polygons; alone, as collection members, nested; negative zeros)", len(zeros)), mc.Opts{MaxDev: -1}, func(c *mc.Ctx) {
+		g := zeros[c.Choose(len(zeros))]
+		checkGeometry(c, g)
+		c.NonTrivial()
+	})
 	r.Explore("custom-json-hooks", "CustomJSONMarshaler / CustomJSONUnmarshaler set to a call-counting wrapper of encoding/json: full product of the 8 non-collection kinds (k=2,m=2), collections within 5 deviations, and the feature grammar within 3 deviations", mc.Opts{MaxDev: 7, Split: 3, NewLocal: newLocal}, func(c *mc.Ctx) {
 		l := c.Local().(*loc)
 		l.reset(0)
